@@ -798,7 +798,7 @@ fn gen_mv_sample(rng: &mut Rng) -> Value {
     let sample = rng.usize(1, 6);
     let n_obj = rng.usize(1, 3);
     let threshold = *rng.pick(&[0., 0.01, 0.1, 0.25, 0.5, 1., 2., -0.125]);
-    let style = rng.below(7);
+    let style = rng.below(9);
     let irregular = rng.chance(1, 8);
     let len = rng.usize(1, 3 * sample + 4);
     let base: Vec<f64> = (0..n_obj).map(|_| rng.range(1, 1000) as f64).collect();
@@ -813,6 +813,10 @@ fn gen_mv_sample(rng: &mut Rng) -> Value {
                     3 => if i < len / 2 { rng.range(0, 1000) as f64 } else { base[o] }, // settles
                     4 => rng.range(-3, 3) as f64,                                // around zero (mean 0, negative mean)
                     5 => base[o] + rng.range(0, 2) as f64,                       // small variation
+                    // a heavily penalised start, then small values: the magnitude drops by many orders inside and past the window
+                    7 => if i == 0 { 1.0e9 + base[o] } else { 10. + rng.range(0, 2) as f64 },
+                    // convergence through several orders of magnitude, then stagnation at a tiny value
+                    8 => (base[o] * 4.) / 10f64.powi((2 * i).min(10) as i32),
                     _ => if o == 0 { base[o] } else { rng.range(0, 1000) as f64 }, // one objective constant
                 })
                 .collect();
